@@ -365,7 +365,7 @@ pub fn part_conn(out: &mut Out, o: &Opts) {
     }
     // random larger operands
     let mut rng = Rng::new(o.seed ^ 0xC0);
-    let n = if o.thorough { 200_000 } else { 4_000 };
+    let n = if o.thorough { 1_000_000 } else { 4_000 };
     for _ in 0..n {
         let a = rand_lit(&mut rng, 6);
         let b = rand_lit(&mut rng, 6);
@@ -441,7 +441,7 @@ pub fn part_quant(out: &mut Out, o: &Opts) {
         }
     }
     let mut rng = Rng::new(o.seed ^ 0xC4);
-    let n = if o.thorough { 200_000 } else { 5_000 };
+    let n = if o.thorough { 1_000_000 } else { 5_000 };
     for _ in 0..n {
         let a = rand_lit(&mut rng, 7);
         let len = rng.below(6);
@@ -556,7 +556,7 @@ pub fn part_fp(out: &mut Out, o: &Opts) {
         g.case(Sx::op("fp", vec![tt(&vars, i), Sx::op("not", vec![Sx::a("X")])]));
     }
     let mut rng = Rng::new(o.seed ^ 0xC6);
-    let n = if o.thorough { 60_000 } else { 3_000 };
+    let n = if o.thorough { 400_000 } else { 3_000 };
     for k in 0..n {
         let mono = k % 4 != 0;
         let body = rand_body(&mut rng, &vars, 3, mono);
@@ -669,7 +669,7 @@ fn rand_prog(rng: &mut Rng, depth: u32, in_fp: bool) -> Sx {
 pub fn part_mixed(out: &mut Out, o: &Opts) {
     let mut g = Gen::new(out);
     let mut rng = Rng::new(o.seed ^ 0xC2);
-    let n = if o.thorough { 300_000 } else { 6_000 };
+    let n = if o.thorough { 1_500_000 } else { 6_000 };
     for _ in 0..n {
         let e = rand_prog(&mut rng, 3, false);
         g.case(e);
